@@ -64,4 +64,49 @@ example (f1 f2 : Nat) (as1 as2 : List Term) (e1 : VM.End) (e2 : SLD.End)
     ⟨fragEx.clauses, by decide +kernel, by decide +kernel, by decide +kernel⟩ (by decide) f1 f2 as1 as2 e1 e2 h1 h2
     (Or.inl (by decide +kernel))
 
+/-! ## stage 2: cut
+
+      p(a).  p(b).
+      f(X) :- p(X), !.
+      f(z).
+      ?- p(Y), f(X).        max = 5      two answers: (a, a), (b, a) — the cut commits f/1 to its first solution
+
+  `#eval Driver.C01.vmLine ⟨5, queryC, progC⟩` = `specLine` =
+      "a C2:%2c C1:p Aa C1:f Aa ; a C2:%2c C1:p Ab C1:f Aa ; end exhausted" -/
+
+def p (a : Term) : Term := .app "p" (.cons a .nil)
+def f (a : Term) : Term := .app "f" (.cons a .nil)
+def conj (a b : Term) : Term := .app "," (.cons a (.cons b .nil))
+
+def progC : List Term :=
+  [p (.atom "a"), p (.atom "b"), SLD.rule (f (v 0)) (conj (p (v 0)) (.atom "!")), f (.atom "z")]
+
+def queryC : Term := conj (p (v 1)) (f (v 0))
+
+theorem fragC : CutFrag progC queryC :=
+  ⟨by decide +kernel, by decide +kernel, by decide +kernel, by decide +kernel⟩
+
+theorem sldC : SLD.solveQuery 40 progC queryC 5 =
+    some ([conj (p (.atom "a")) (f (.atom "a")), conj (p (.atom "b")) (f (.atom "a"))], .exhausted) := by
+  decide +kernel
+
+example (f1 : Nat) (as1 : List Term) (e1 : VM.End)
+    (h1 : VM.runQuery f1 progC (Driver.C01.shiftVars 10 queryC) 5 = some (as1, e1)) :
+    Forall2 (AnsRel (Driver.C01.shiftVars 10 queryC)) as1
+      [conj (p (.atom "a")) (f (.atom "a")), conj (p (.atom "b")) (f (.atom "a"))] ∧ endAgree e1 .exhausted :=
+  vm_refines_sld_cut progC queryC 5 fragC (by decide) f1 40 as1 _ e1 _ h1 sldC
+
+/-- a cut in the query itself: `?- p(Y), !, f(X).` — one answer -/
+def queryC2 : Term := conj (p (v 1)) (conj (.atom "!") (f (v 0)))
+
+theorem sldC2 : SLD.solveQuery 40 progC queryC2 5 =
+    some ([conj (p (.atom "a")) (conj (.atom "!") (f (.atom "a")))], .exhausted) := by decide +kernel
+
+example (f1 : Nat) (as1 : List Term) (e1 : VM.End)
+    (h1 : VM.runQuery f1 progC (Driver.C01.shiftVars 10 queryC2) 5 = some (as1, e1)) :
+    Forall2 (AnsRel (Driver.C01.shiftVars 10 queryC2)) as1
+      [conj (p (.atom "a")) (conj (.atom "!") (f (.atom "a")))] ∧ endAgree e1 .exhausted :=
+  vm_refines_sld_cut progC queryC2 5
+    ⟨fragC.clauses, by decide +kernel, by decide +kernel, by decide +kernel⟩ (by decide) f1 40 as1 _ e1 _ h1 sldC2
+
 end PrologVerif.Refine.Example
